@@ -37,8 +37,12 @@ def run(ctx, out):
         greedy_last = bool(s["fields"]) and s["fields"][-1]["tag"] is None and s["fields"][-1]["length"] in ("empty", "temperature")
         absent_pos = any(f["tag"] is None and f["ty"]["k"] == "opt" and v[f["name"]] is None for f in s["fields"])
         if not greedy_last and not absent_pos:
-            first = rng.choice([t for t in range(1, 255) if t not in tags and t not in (0x1f, 0xff) and not any((tt >> 8) == t for tt in tags)])
+            first = rng.choice([t for t in range(0, 255) if t not in tags and t not in (0x1f, 0xff) and not any((tt >> 8) == t for tt in tags)])
             junk = bytes([first]) + bytes(rng.randrange(256) for _ in range(rng.randint(0, 8)))
+            if k % 3 == 0:
+                # filler-looking junk: one or several 00 bytes (BER-TLV "padding"), bare or followed by more — the format of this
+                # library knows no filler: they are bytes beyond the last container and must come back untouched
+                junk = bytes(rng.randint(1, 4)) + rng.choice([b"", bytes(rng.randrange(256) for _ in range(rng.randint(1, 4)))])
             body = b[2 + (1 if b[2] != 0xff else 3):]
             nb = body + junk
             if len(nb) < 65536:
@@ -111,6 +115,6 @@ def run(ctx, out):
             out.oracle_failures.append({"op": o, "observed": "…" + r[max(0, i - 60):i + 200], "expected": "…" + w[max(0, i - 60):i + 200], "key": o[:160],
                                         "what": f"appended bytes ({kd}) change the decoded value or are not handed back untouched"})
     out.rule = (f"{len(packets)} canonical packets of all {len(cmds)} command types x suffixes (empty, single bytes incl. all 256 for every 25th packet, valid packets, random up to 64 bytes) and junk spliced "
-                "into the APDU body behind the last container; every element of every nested container (1-3 levels down) moved in front of its siblings; at the packet reader, 2-4 reply packets (+ dangling bytes) delivered in ONE chunk are returned one by one; value, remainder (= suffix) and re-encoding compared with the no-suffix result on the implementation, and implementation = model. "
+                "(a foreign tag number incl. 00, or 1-4 filler-looking 00 bytes) into the APDU body behind the last container; every element of every nested container (1-3 levels down) moved in front of its siblings; at the packet reader, 2-4 reply packets (+ dangling bytes) delivered in ONE chunk are returned one by one; value, remainder (= suffix) and re-encoding compared with the no-suffix result on the implementation, and implementation = model. "
                 "non-trivial = distinct (packet, suffix) inputs")
     out.samples = [ops[1][:300], {"op": ops[-1][:120], "impl": impl[-1][-120:]}]
